@@ -152,39 +152,47 @@ def all_lean_modules():
 
 
 def audit_axioms(prop, entry):
-    """run `#print axioms` for every theorem of the property; returns (ok_names, broken[(name, why)])"""
-    thms = entry.get("theorems", [])
-    if not thms:
-        return [], []
-    imports = entry.get("modules", [])
-    src = "".join("import %s\n" % m for m in imports) + "open SV\n" + \
-        "".join("#print axioms %s\n" % t for t in thms)
-    path = os.path.join(LEAN, ".lake", "Audit_%s.lean" % prop)
-    with open(path, "w") as f:
-        f.write(src)
-    p = subprocess.run(["lake", "env", "lean", path], cwd=LEAN, stdout=subprocess.PIPE,
-                       stderr=subprocess.STDOUT, timeout=1200)
-    out = p.stdout.decode(errors="replace")
+    """run `#print axioms` for every theorem of the property, one Lean file per module (modules of
+    different properties are never imported together); returns (ok_names, broken[(name, why)])"""
+    per = entry.get("per_module") or {}
+    if not per and entry.get("theorems"):
+        per = {m: [] for m in entry.get("modules", [])}
+        per[entry["modules"][0]] = entry["theorems"]
     ok, broken = [], []
-    # parse: "'name' depends on axioms: [a, b]" or "'name' does not depend on any axioms"
-    found = {}
-    for m in re.finditer(r"'([^']+)' depends on axioms: \[([^\]]*)\]", out, flags=re.S):
-        found[m.group(1)] = {a.strip() for a in m.group(2).replace("\n", " ").split(",") if a.strip()}
-    for m in re.finditer(r"'([^']+)' does not depend on any axioms", out):
-        found[m.group(1)] = set()
-    for t in thms:
-        full = t if t.startswith("SV.") else "SV." + t
-        ax = found.get(full, found.get(t))
-        if ax is None:
-            why = "theorem missing or does not check"
-            mm = re.search(r"error:[^\n]*%s[^\n]*" % re.escape(t.split(".")[-1]), out)
-            if mm:
-                why = mm.group(0)[:300]
-            broken.append((t, why))
-        elif not ax <= ALLOWED_AXIOMS:
-            broken.append((t, "depends on axioms %s" % sorted(ax - ALLOWED_AXIOMS)))
-        else:
-            ok.append(t)
+    for k, (mod, thms) in enumerate(sorted(per.items())):
+        if not thms:
+            continue
+        src = "import %s\nopen SV\n" % mod + "".join("#print axioms %s\n" % t for t in thms)
+        path = os.path.join(LEAN, ".lake", "Audit_%s_%d.lean" % (prop, k))
+        with open(path, "w") as f:
+            f.write(src)
+        p = subprocess.run(["lake", "env", "lean", path], cwd=LEAN, stdout=subprocess.PIPE,
+                           stderr=subprocess.STDOUT, timeout=1800)
+        out = p.stdout.decode(errors="replace")
+        found = {}
+        for m in re.finditer(r"'([^']+)' depends on axioms: \[([^\]]*)\]", out, flags=re.S):
+            found[m.group(1)] = {a.strip() for a in m.group(2).replace("\n", " ").split(",") if a.strip()}
+        for m in re.finditer(r"'([^']+)' does not depend on any axioms", out):
+            found[m.group(1)] = set()
+        for t in thms:
+            ax = None
+            for cand in (t, "SV." + t, "SV.C18." + t):
+                if cand in found:
+                    ax = found[cand]
+                    break
+            if ax is None:
+                hits = [v for kk, v in found.items() if kk.split(".")[-1] == t.split(".")[-1]]
+                ax = hits[0] if hits else None
+            if ax is None:
+                why = "theorem missing or does not check"
+                mm = re.search(r"error:[^\n]*", out)
+                if mm:
+                    why += ": " + mm.group(0)[:300]
+                broken.append((t, why))
+            elif not ax <= ALLOWED_AXIOMS:
+                broken.append((t, "depends on axioms %s" % sorted(ax - ALLOWED_AXIOMS)))
+            else:
+                ok.append(t)
     return ok, broken
 
 
